@@ -8,7 +8,7 @@ Ds == DsOfSmall(gen)
 Cfg0 == [agg |-> "mean", q |-> Zero, bt |-> "above", t |-> R(2), u |-> R(2)]
 ThsA == <<R(-1), R(1), R(3), R(6)>>
 Variants ==
-  {[diagram |-> "standard", argv |-> <<"-m", m, "-x", a>>, m |-> m, axis |-> a] : m \in {"mae", "corr"}, a \in {"leadtime", "time", "location", "month", "no"}}
+  {[diagram |-> "standard", argv |-> <<"-m", m, "-x", a>>, m |-> m, axis |-> a] : m \in {"mae", "corr"}, a \in {"leadtime", "time", "location", "month", "timeofday", "no"}}
   \cup {[diagram |-> "standard-avg", argv |-> <<"-m", m, "-x", a, "-r", "-1,1,3,6", "-b", "within">>, m |-> m, axis |-> a] : m \in {"mae", "n"}, a \in {"leadtime", "location"}}
   \cup {[diagram |-> "obsfcst", argv |-> <<"-m", "obsfcst", "-x", a>>, m |-> "", axis |-> a] : a \in {"leadtime", "time", "location"}}
   \cup {[diagram |-> x, argv |-> <<"-m", x>>, m |-> "", axis |-> "no"] : x \in {"qq", "scatter", "against"}}
